@@ -24,6 +24,7 @@
 //!   15051  ps=[be,rsh,mask,via,seed]      vs=[[k],[keys],[values]] -> [decrypt of glwe_blind_selection]
 //!   15052  ps=[be,rsh,mask,via,seed]      vs=[[k],[data]] -> [all slots after retrieval], [all slots after _rev]
 //!   15053  ps=[be,size,offset,via,seed]   vs=[[k],[data]] -> [decrypt of GLWEBlindRetriever::retrieve]
+//!   15056  ps=[be,size,via,seed]   vs=[[kind,k,offset],[data]]* -> [result of every round of a history on ONE retriever]
 //!   15054  ps=[be,bit,via,seed]           vs=[[a,b]]  -> [a', b'] after cswap by the GGSW of bit `bit` of vs[0][2]
 //!   15060  ps=[be,route,msg,log_domain,seed]  -> [observed message per GGSW cell (row-major)], [row,idx,val.. of column 0]
 //!   15061  ps=[be,route,msg,log_domain,log_gap_out,seed] -> same, exponent mode
@@ -355,6 +356,31 @@ macro_rules! backend_impl {
                         note_dec(code, &res);
                         vec![vec![dec(&res)]]
                     }
+                    15056 => {
+                        // a HISTORY on one retriever object: vs = [kind, k, offset], data, [kind, k, offset], data, ...
+                        // kind 0 = retrieve, 1 = add every input then flush, 2 = add every input and abandon the round
+                        let (size, via) = (ps[2] as usize, ps[3]);
+                        let mut ret = GLWEBlindRetriever::alloc(&gi, size);
+                        let mut outs: Vec<i128> = Vec::new();
+                        for (ri, rd) in r.vs.chunks(2).enumerate() {
+                            let (kind, kw, offset) = (rd[0][0], rd[0][1] as u32, rd[0][2] as usize);
+                            let s = seed.wrapping_add(1000 * ri as u64);
+                            let k = selector(kw, if ri == 0 { via } else { 0 }, s);
+                            let data: Vec<U<u32>> = rd[1].iter().enumerate().map(|(i, v)| enc(*v as u32, s + 10 + i as u64)).collect();
+                            let mut res: U<u32> = FheUint::alloc_from_infos(&gi);
+                            match kind {
+                                0 => { ret.retrieve(&ctx.module, &mut res, &data, &k, offset, scr().borrow()); outs.push(dec(&res)); }
+                                1 => {
+                                    for ct in data.iter() { ret.add(&ctx.module, ct, &k, offset, scr().borrow()); }
+                                    ret.flush(&ctx.module, &mut res, &k, offset, scr().borrow());
+                                    outs.push(dec(&res));
+                                }
+                                _ => { for ct in data.iter() { ret.add(&ctx.module, ct, &k, offset, scr().borrow()); } outs.push(-2); }
+                            }
+                            if kind != 2 { note_dec(code, &res); }
+                        }
+                        vec![outs]
+                    }
                     15054 => {
                         let (bit, via) = (ps[2] as usize, ps[3]);
                         let k = selector(r.vs[0][2] as u32, via, seed);
@@ -538,7 +564,7 @@ macro_rules! backend_impl {
                 match r.code {
                     15002..=15013 => { let bits = r.ps[2]; with_ty!(bits, T, { layout_ops::<T>(r) }) }
                     15021..=15031 | 15040 => word_ops(r),
-                    15050..=15054 => blind_ops(r),
+                    15050..=15054 | 15056 => blind_ops(r),
                     15055 => {
                         // as 15053, a panic of the retriever is reported as the value -1 (so that the oracle sees it)
                         let mut r2 = r.clone();
@@ -789,6 +815,32 @@ pub fn generate(tier: &str, seed: u64) -> Vec<Rec> {
     for i in 0..(if thorough { 6 } else { 3 }) {
         out.push(Rec::new(15055, vec![2, 8, 1, rng.range(0, 31) as i128, (i % 2) as i128, sd()], vec![vec![word(&mut rng, 32)], vec![word(&mut rng, 32)]]));
         out.push(Rec::new(15055, vec![2, 8, 2, rng.range(0, 31) as i128, 0, sd()], vec![vec![word(&mut rng, 32)], vec![word(&mut rng, 32)]]));
+    }
+    // retriever HISTORIES: one GLWEBlindRetriever object through several rounds with varying input counts
+    // (1, 2, 3, half, half + 1, full capacity, allocated size) and indices; every capacity class of alloc
+    for (hi, size) in [8usize, 25, 2, 1, 16, 5, 8, 25, 3, 32].into_iter().enumerate() {
+        if !thorough && hi >= 7 { break; }
+        let nb = (u32::BITS - (size.max(1) as u32 - 1).leading_zeros()).max(1) as usize;
+        let cap = 1usize << nb;
+        let mut counts: Vec<usize> = vec![1, 2, 3, cap / 2, cap / 2 + 1, cap, size, cap / 2, 1, size, 3, cap];
+        for c in counts.iter_mut() { *c = (*c).clamp(1, cap); }
+        let nrounds = if thorough { 12 } else { 9 };
+        let mut vs: Vec<Vec<i128>> = Vec::new();
+        let mut j = hi;
+        let mut prev_kind = 0i128;
+        for ri in 0..nrounds {
+            j = j.wrapping_mul(7).wrapping_add(3 + ri);
+            let len = counts[(ri + hi) % counts.len()];
+            // an abandoned round (adds only) is always followed by a retrieve, which resets
+            let kind: i128 = if prev_kind == 2 { 0 } else if ri + 1 < nrounds && j % 7 == 0 && len < cap { 2 } else { (j % 2) as i128 };
+            prev_kind = kind;
+            let off = rng.range(0, 32 - nb as i64);
+            let idx = rng.below(len as u64) as i128;
+            let kw = (word(&mut rng, 32) & !(((1i128 << nb) - 1) << off)) | (idx << off);
+            vs.push(vec![kind, kw, off as i128]);
+            vs.push((0..len).map(|_| word(&mut rng, 32)).collect());
+        }
+        out.push(Rec::new(15056, vec![be(&mut rng), 8, size as i128, (hi % 3 == 0) as i128, sd()], vs));
     }
     // circuit bootstrapping at parameter sets of its own: the test set again, then gadgets whose lookup-table
     // coefficients reach the top of i64 (ps = [be, logn, expo, msg, ld, lgo, res_base2k, dnum, rank, brk_base2k, seed])
